@@ -90,8 +90,8 @@ func evalProgram(vm *r.VM, program *syntax.Program, varInputs r.ElementMap) (r.E
 
 func evalExecBlock(vm *r.VM, execBlock *syntax.ExecBlock, params []r.Element) (r.Element, error) {
 	defer verifEnterCall()()
-	vm.BeginScope()
-	defer vm.EndScope()
+	scope := vm.BeginScope()
+	defer scope.EndScope()
 
 	blockModule := vm.GetCurrentModule()
 	// 1.0 inject 此 value from callFrame's context (for method functions ONLY)
@@ -155,8 +155,8 @@ func evalStmtBlock(vm *r.VM, stmtBlock *syntax.StmtBlock) (r.Element, error) {
 
 // evalPureStmtBlock - evaluate statement block without classDef/funcDef/import statements
 func evalPureStmtBlock(vm *r.VM, stmtBlock *syntax.StmtBlock) (r.Element, error) {
-	vm.BeginScope()
-	defer vm.EndScope()
+	scope := vm.BeginScope()
+	defer scope.EndScope()
 
 	var rtnValue r.Element
 	var err error
@@ -585,8 +585,8 @@ func evalBranchStmt(vm *r.VM, node *syntax.BranchStmt) error {
 }
 
 func evalIterateStmt(vm *r.VM, node *syntax.IterateStmt) error {
-	vm.BeginScope()
-	defer vm.EndScope()
+	scope := vm.BeginScope()
+	defer scope.EndScope()
 
 	// pre-defined key, value variable name
 	var keySlot, valueSlot *r.IDName
